@@ -7,6 +7,7 @@ Python statements compute. Inputs: the numeric literals that occur in the transl
 signs, magnitudes from 1e-6 to 1e6, integers; strings from the alias tables; booleans; None.
 """
 import ast
+import copy
 import importlib
 import math
 import os
@@ -60,6 +61,14 @@ def _gen(rng, t, lits, strings):
         return str(rng.choice(strings))
     if t == "onum":
         return None if rng.random() < 0.35 else np.float64(_gen_num(rng, lits))
+    if t == "pint":     # a positive integer (e.g. the starting power of nextpow2: zero would never terminate)
+        return int(rng.choice([1, 2, 3, 2 ** 15, int(rng.integers(1, 70000))]))
+    if t == "fuel":
+        return 200
+    if t == "dictn":    # settings.fft_settings: None, a dict without the key, {"n": None}, {"n": k}
+        u = rng.random()
+        k = int(rng.choice([0, 1, 2 ** 15, 2 ** 16, int(rng.integers(0, 200000))]))
+        return None if u < 0.25 else ({} if u < 0.4 else ({"n": None} if u < 0.6 else {"n": k}))
     raise ValueError(t)
 
 
@@ -74,7 +83,15 @@ def _tok(v, t):
         return v
     if t == "onum":
         return "none" if v is None else hexf(float(v))
+    if t in ("pint", "fuel"):
+        return str(int(v))
+    if t == "dictn":
+        return _dictn(v)
     raise ValueError(t)
+
+
+def _dictn(v):
+    return "None" if v is None else ("nokey" if "n" not in v else ("nnone" if v["n"] is None else str(int(v["n"]))))
 
 
 def _flatten(x):
@@ -102,6 +119,8 @@ def _same(a, b, t, scale=1.0):
         return int(a) == int(b)
     if t == "bool":
         return bool(a) == bool(b)
+    if t == "dictn":
+        return _dictn(a) == b
     if t == "obool":
         return (a is None and b is None) or (a is not None and b is not None and bool(a) == bool(b))
     return a == b
@@ -177,7 +196,7 @@ def validate(ctx, groups, rng):
                 import warnings
                 with warnings.catch_warnings():
                     warnings.simplefilter("ignore")
-                    py = run(inp)
+                    py = run(copy.deepcopy(inp))      # a slice may store into a dict it was handed
             t = Toks(line)
             kind = t.tok()
             if kind not in ("val", "some", "none"):
@@ -198,6 +217,9 @@ def validate(ctx, groups, rng):
                 else:
                     lean_vals = []
                     for ty in ot:
+                        if ty == "dictn":
+                            lean_vals.append(t.tok())
+                            continue
                         if ty == "obool":
                             tk = t.tok()
                             lean_vals.append(None if tk == "none" else tk == "1")
